@@ -187,3 +187,66 @@ def guards_ext(node, pm, stop=None):
             break
         cur = par
     return out
+
+
+def return_paths(fnode, skip_raising=True, max_paths=64):
+    """[(guards, expr)] for every path of a loop-free function body to a `return <expr>`: locals are expanded into the expressions
+    that define them along the path (single static assignment by substitution), `guards` is the list of (expanded test, polarity)
+    of the If statements taken.  Branches that end in `raise` are dropped when skip_raising.  Try: the body is followed (handlers
+    that only raise are ignored).  Returns None when the body contains a loop on the way or too many paths."""
+    import copy
+
+    class Exp(ast.NodeTransformer):
+        def __init__(self, env):
+            self.env = env
+
+        def visit_Name(self, n):
+            if isinstance(n.ctx, ast.Load) and n.id in self.env:
+                return copy.deepcopy(self.env[n.id])
+            return n
+
+    def expand(e, env):
+        return Exp(env).visit(copy.deepcopy(e))
+    out = []
+
+    class TooMany(Exception):
+        pass
+
+    def walk(stmts, env, guards):
+        """returns True if every path through stmts ended (return / raise)"""
+        for i, st in enumerate(stmts):
+            if isinstance(st, ast.Return):
+                out.append((list(guards), expand(st.value, env) if st.value is not None else None))
+                if len(out) > max_paths:
+                    raise TooMany()
+                return True
+            if isinstance(st, ast.Raise):
+                return True
+            if isinstance(st, ast.Assign) and len(st.targets) == 1 and isinstance(st.targets[0], ast.Name):
+                env = dict(env)
+                env[st.targets[0].id] = expand(st.value, env)
+                continue
+            if isinstance(st, ast.If):
+                t = expand(st.test, env)
+                rest = stmts[i + 1:]
+                e1 = walk(list(st.body) + rest, dict(env), guards + [(t, True)])
+                e2 = walk(list(st.orelse) + rest, dict(env), guards + [(t, False)])
+                return e1 and e2
+            if isinstance(st, ast.Try):
+                return walk(list(st.body) + list(st.orelse) + list(st.finalbody) + stmts[i + 1:], env, guards)
+            if isinstance(st, ast.With):
+                return walk(list(st.body) + stmts[i + 1:], env, guards)
+            if isinstance(st, (ast.For, ast.While)):
+                raise TooMany()
+            # other statements (Expr, AugAssign, attribute stores, assert): no effect on the returned expression's locals,
+            # except an augmented assignment of a local
+            if isinstance(st, ast.AugAssign) and isinstance(st.target, ast.Name):
+                env = dict(env)
+                cur = env.get(st.target.id, ast.Name(id=st.target.id, ctx=ast.Load()))
+                env[st.target.id] = ast.BinOp(left=copy.deepcopy(cur), op=st.op, right=expand(st.value, env))
+        return False
+    try:
+        walk(list(fnode.body), {}, [])
+    except TooMany:
+        return None
+    return out
